@@ -3,7 +3,7 @@ import io
 import os
 from util import hb, outcome, exc_class
 import isoutil as iu
-from props.framing import block_ref, vbs_ref, hlist
+from props.framing import block_ref, vbs_ref, hlist, in_stream
 
 ID = 'C07'
 CASE_TIMEOUT = 3.0
@@ -75,6 +75,16 @@ def gen(rng, tier):
         if i % 3 == 0 and n >= 20:
             raw = b'1144' + raw[4:]
         cases.append({'kind': 'msg', 'cfg': None, 'codec': rng.choice(['latin_1', 'cp500', 'ascii']), 'hex': i % 5 == 0, 'bytes': raw.hex(), 'mut': 'random'})
+    # the same raw text under several configurations after earlier calls in the same process, and damaged versions of it
+    for cc in iu.collision_cases(rng, 40 if tier == 'quick' else 1000):
+        try:
+            b = iu.ref_wire(iu.dict_of_text(cc['msg']), cc['cfg'], cc['codec'], cc['hex'])
+            warm = [dict(cfg=w['cfg'], codec=w['codec'], hex=w['hex'], how=w.get('how', 'plain'),
+                         bytes=iu.ref_wire(iu.dict_of_text(w['msg']), w['cfg'], w['codec'], w['hex']).hex()) for w in cc.get('warm', [])]
+        except (iu.Refused, UnicodeEncodeError):
+            continue
+        for bb in (b, iu.mutate(rng, b), iu.mutate(rng, b)):
+            cases.append({'kind': 'msg', 'cfg': cc['cfg'], 'codec': cc['codec'], 'hex': cc['hex'], 'bytes': bb.hex(), 'mut': 'collision', 'warm': warm})
     # files
     for i in range(120 if tier == 'quick' else 3000):
         k = rng.choice([1, 2, 3, 5])
@@ -156,16 +166,17 @@ def impl(case):
     from cardutil import iso8583, mciipm
     if case['kind'] == 'msg':
         b = bytes.fromhex(case['bytes'])
-        return {'out': outcome(lambda: iso8583.loads(b, encoding=case['codec'], iso_config=case['cfg'], hex_bitmap=case['hex']), iu.dict_text)}
+        cfg = iu.run_warm(case, lambda w, c: iso8583.loads(bytes.fromhex(w['bytes']), encoding=w['codec'], iso_config=c, hex_bitmap=w['hex']))
+        return {'out': outcome(lambda: iso8583.loads(b, encoding=case['codec'], iso_config=cfg, hex_bitmap=case['hex']), iu.dict_text)}
     f = bytes.fromhex(case['file'])
     if case['kind'] == 'file':
         recs = []
         try:
             if case['reader'] == 'ipm':
-                for d in mciipm.IpmReader(io.BytesIO(f), encoding=case['codec'], blocked=case['blocked']):
+                for d in mciipm.IpmReader(in_stream(f), encoding=case['codec'], blocked=case['blocked']):
                     recs.append(iu.dict_text(d) if d else '~')
             else:
-                for r in mciipm.VbsReader(io.BytesIO(f), blocked=case['blocked']):
+                for r in mciipm.VbsReader(in_stream(f), blocked=case['blocked']):
                     recs.append(r.hex() or '_')
         except Exception as ex:
             cls = exc_class(ex)
